@@ -10,7 +10,7 @@ from __future__ import annotations
 
 from fractions import Fraction as Fr
 
-from common import fr, impl
+from common import close_floats, fr, impl
 from dsl import grid_points, params_impl
 from pipeline import init_impl, model_layout
 from props.simcommon import base_out, replay_case, run_panel, sim_cases
@@ -72,7 +72,7 @@ def run_case(case):
                 continue
             n_on += 1
             entry = float(V[t][tuple(idx)]) if idx else float(V[t][()])
-            if Fr(entry) != Fr(row["value"]) and not (np.isneginf(entry) and np.isneginf(row["value"])):
+            if not close_floats([entry], [row["value"]]):
                 vs.append({"clause": "simulated value equals the value array entry at an on-grid state",
                            "detail": f"period {t} agent {i} state {row['states']} index {idx}: simulated {fr(row['value'])}, V[{t}]{idx} = {fr(entry)}"})
     # (b) solve_and_simulate == solve -> simulate
